@@ -32,6 +32,11 @@ claim("C19",
       "Known findings: in-place mutation of stored collections (SADD SREM ZADD ZREM LSET HDEL) is not accounted. See evidence assumptions for bounds.",
       "DESIGN.md C19")
 
+claim("C13",
+      "The command list is read from the real command table: every data command is run symbolically with generic argument shapes on two keys of arbitrary type; for every read-only command, and for every invocation that returns an error, both keys must be deep-equal to their pre-state and no key may appear or disappear; STORE commands are checked for object identity with their sources and by a follow-up write to the destination.",
+      "Bounds in the evidence assumptions. Known finding: ZUNIONSTORE with a destination spelled like the command word panics (argument removal hack pinned by the repository's tests).",
+      "DESIGN.md C13")
+
 # every property without a claim is listed as not applicable (yet) with its reason
 NA_REASONS = {}
 for n in range(1, 21):
